@@ -105,8 +105,8 @@ Proof. intros I vals r NE NN H v P. cbn in I.
     unfold pl_agg1 in P. cbn in P. destruct (all_bool vals) as [[|b bs]|]; try discriminate H. inversion H; inversion P; subst. apply sv_eqv_refl.
   - change (spec_agg mf "nunique" vals) with (match all_fin vals with Some qs => Some (nat_sv (List.length (qdistinct qs))) | None => None end) in H.
     destruct (all_fin vals) as [qs|] eqn:F; [|discriminate H]. inversion H; subst.
-    unfold pl_agg1 in P. cbn -[Nat.ltb] in P. destruct (all_fin_no_missing _ _ F) as [_ SP]. rewrite SP, F in P.
-    rewrite (all_fin_length _ _ F), Nat.ltb_irrefl, Nat.add_0_r in P. inversion P; subst. apply sv_eqv_refl.
+    unfold pl_agg1 in P. cbn in P. destruct (all_fin_no_missing _ _ F) as [_ SP]. rewrite SP, F in P.
+    inversion P; subst. apply sv_eqv_refl.
   - change (spec_agg mf "any_value" vals) with (agg_present 1 (fun qs => match qdistinct qs with [x] => Some (SNum x) | _ => None end) vals) in H. present_case H.
     destruct (qdistinct qs) as [|x [|x2 rest]] eqn:D; try discriminate E. inversion E; subst.
     unfold pl_agg1 in P. cbn in P. rewrite (sql_present_of_present _ _ F NN) in P. destruct (qfold1 qmin2 qs) as [w|] eqn:M.
@@ -143,9 +143,11 @@ Proof. intros H P. unfold pl_window in P.
   - destruct vals; inversion H; inversion P; subst; apply svl_eqv_refl.
   - change (spec_win "first" vals) with (match all_fin vals with Some (x :: t) => Some (map (fun _ => SNum x) vals) | _ => None end) in H.
     destruct (all_fin vals) as [[|x t]|] eqn:F; try discriminate H. inversion H; inversion P; subst.
+    destruct (all_fin_no_missing _ _ F) as [_ SP]. rewrite SP.
     rewrite (all_fin_map _ _ F). cbn [map]. apply svl_eqv_refl.
   - change (spec_win "last" vals) with (match all_fin vals with Some (x :: t) => Some (map (fun _ => SNum (last (x :: t) x)) vals) | _ => None end) in H.
     destruct (all_fin vals) as [[|x t]|] eqn:F; try discriminate H. inversion H; inversion P; subst.
+    destruct (all_fin_no_missing _ _ F) as [_ SP]. rewrite SP.
     rewrite (all_fin_map _ _ F). rewrite (last_map_snum t x SNull). apply svl_eqv_refl.
   - change (spec_win "rank" vals) with (match all_fin vals with Some qs => if qnodup qs then Some (map (fun x => SNum (qrank qs x)) qs) else None | None => None end) in H.
     rewrite H in P. inversion P; subst. apply svl_eqv_refl.
